@@ -127,6 +127,15 @@ CLAIMED = {
             'payload checksum, carry the status code and MIME type of the archived response, one line per response record; read_cdx reads it back.',
             'Trusts harness/warcenv.py and fakefs; status codes and Content-Type values from pools; body <=1 byte.',
             'DESIGN.md 3/C07', 'configuration and header shape by symbolic index, body symbolic'),
+    'C15': ('other',
+            'Bounded symbolic verification of safe_filename, PathNamer.get_filename and the writer session Content-Disposition rename: names '
+            'of 1-2 (thorough 3) characters over a 24-class character pool, URLs assembled from pools of encoded separators / dots / NUL / '
+            'backslashes / LF / very long names / dot segments / hostile queries, and all naming options (directory, cut, protocol/host '
+            'directories, OS mode, control/ASCII restriction, case, length limit) as symbolic values; the chosen path must start with the '
+            'root, be normalised, and every component below the root be a single non-empty name that is not "." / ".." and holds no '
+            'separator or (unless disabled) control character; plus free symbolic names as hunts.',
+            'Pools are finite (enumerated by the solver); sha1 stubbed; real file-system state (anti-clobber, symlinks) outside the claim.',
+            'DESIGN.md 3/C15', 'character/segment pool indices and all options symbolic; free names <=2-3 characters'),
 }
 
 NOT_APPLICABLE = {
@@ -136,7 +145,7 @@ NOT_APPLICABLE = {
 }
 
 PENDING = {k: 'claimed in DESIGN.md 3 but its check is not built yet at this commit' for k in
-           'C09 C10 C15 C20'.split()}
+           'C09 C10 C20'.split()}
 
 
 def main():
